@@ -35,6 +35,9 @@ inductive Pl where
   | arpRep (sIp : Ip) (sMac : Mac) (tIp : Ip) (tMac : Mac)
   | echoReq (ident : Nat)
   | echoRep (ident : Nat)
+  /-- a service request / reply over UDP (the rig uses NTP, port 123 both ways) -/
+  | dataReq
+  | dataRep
 deriving DecidableEq, Repr
 
 structure Frame where
@@ -75,6 +78,10 @@ structure Node where
   macTable : List (Mac × Nat) := []
   routes : Table := {}
   replies : List (Nat × Nat) := []
+  /-- host: the server side of the service is installed (it then owns the port); router: an ACL rule permits the service -/
+  flag : Bool := false
+  /-- host: the client side has received a reply -/
+  served : Bool := false
 deriving DecidableEq, Repr
 
 inductive Ev
@@ -294,6 +301,12 @@ def hostRecv (fuel : Nat) (st : St) (n i : Nat) (f : Frame) : St × Frame :=
         | none => (r.1, f)
         | some _ => (sendIcmp fuel r.1 n f.srcIp (.echoRep ident), f)
       | .echoRep ident => (st.modNode n (fun nd => { nd with replies := bumpReply nd.replies ident }), f)
+      | .dataReq =>
+        -- `NTPServer.receive`: answer through the session, i.e. to the frame's source address
+        if nd.flag then (sendIcmp fuel st n f.srcIp .dataRep, f) else (st.emit (.raised n), f)
+      | .dataRep =>
+        -- `NTPClient.receive`: the reply carries the time
+        if nd.flag then (st.emit (.raised n), f) else (st.modNode n (fun nd => { nd with served := true }), f)
     | _, _ => (st, f)
 
 /-- `ARP.send_arp_reply`. -/
@@ -473,9 +486,13 @@ def routerRecv (fuel : Nat) (st : St) (n i : Nat) (f : Frame) : St × Frame :=
     match st.node? n, st.iface? n i with
     | some nd, some ifc =>
       if !nd.on then (st, f) else
+      -- ACL: ARP exempt, ICMP permitted by default rule 23, the service only with a permit rule; implicit deny
+      if (f.pl == .dataReq || f.pl == .dataRep) && !nd.flag then (st, f) else
       let st := st.modNode n (fun nd => nd.addArp f.srcIp f.srcMac i)
       match ifaceWithIp nd.ifaces f.dstIp with
       | some own =>
+        -- the service port is not open on a router: `process_frame` drops what is addressed to the router itself
+        if f.pl == .dataReq || f.pl == .dataRep then (st, f) else
         -- `check_send_frame_to_session_manager`: an own address and (ICMP or the open ARP port)
         let st := st.emit (.sw n f.id f.dstIp (f.dstMac == bcastMac))
         match f.pl with
@@ -492,6 +509,8 @@ def routerRecv (fuel : Nat) (st : St) (n i : Nat) (f : Frame) : St × Frame :=
         | .echoRep ident =>
           if !own.enabled then (st, f)
           else (st.modNode n (fun nd => { nd with replies := bumpReply nd.replies ident }), f)
+        | .dataReq => (st, f)
+        | .dataRep => (st, f)
       | none => routerProcess fuel st n i f
     | _, _ => (st, f)
 
@@ -560,6 +579,14 @@ def ping (fuel : Nat) (st : St) (n : Nat) (target : Ip) (pings : Nat) : St × Bo
     match res.1.node? n with
     | none => (res.1, false)
     | some nd' => (res.1, res.2 && replyCount nd'.replies ident == some pings)
+
+/-- `NTPClient.request_time` with the server address configured: one request; success iff the reply arrived. -/
+def requestService (fuel : Nat) (st : St) (n : Nat) (server : Ip) : St × Bool :=
+  let st := st.modNode n (fun nd => { nd with served := false })
+  let st := sendIcmp fuel st n server .dataReq
+  match st.node? n with
+  | none => (st, false)
+  | some nd => (st, nd.served)
 
 /-- `IPWiredNetworkInterface.enable` (+ `default_gateway_hello` on hosts). -/
 def enableIface (fuel : Nat) (st : St) (n i : Nat) : St :=
